@@ -144,6 +144,66 @@ pub fn cycle_check(m1: &A2lFile, k: usize, origin_text: &str) -> Result<(), (Str
     Ok(())
 }
 
+/// K cycles write(path, banner) -> load(path): every loaded model equals the original, and from
+/// the second file on the bytes do not change any more (the first file may differ from the later
+/// ones in the blank that stands in front of a first token on line 1, which the banner moves to
+/// line 2)
+pub fn file_cycle_check(m1: &A2lFile, k: usize, banner: Option<&str>, dir: &std::path::Path) -> Result<(), (String, String)> {
+    let path = dir.join("c01_cycle.a2l");
+    let mut model = m1.clone();
+    let mut files: Vec<Vec<u8>> = Vec::new();
+    for cycle in 1..=k {
+        guarded(|| model.write(&path, banner))
+            .map_err(|(s, d)| (format!("{s} in write(path)"), d))?
+            .map_err(|e| ("write(path) fails".to_string(), e.to_string()))?;
+        let bytes = std::fs::read(&path).map_err(|e| ("harness: cannot read back the file".to_string(), e.to_string()))?;
+        let loaded = guarded(|| a2lfile::load(&path, None, false)).map_err(|(s, d)| (format!("{s} in load(path)"), d))?;
+        let (m2, _log) = loaded.map_err(|e| {
+            (
+                format!("reload of the written file fails: {}", crate::gram::err_class(&e)),
+                format!("file cycle {cycle}: {e}"),
+            )
+        })?;
+        if &m2 != m1 {
+            let mut n1 = m1.clone();
+            let mut n2 = m2.clone();
+            normalise_reserved(&mut n1);
+            normalise_reserved(&mut n2);
+            let sig = if n1 == n2 {
+                "reloaded model differs only in the order of RESERVED items (input not in position order)".to_string()
+            } else {
+                "model loaded from the written file differs".to_string()
+            };
+            return Err((sig, format!("file cycle {cycle}: {}", model_diff(m1, &m2))));
+        }
+        files.push(bytes);
+        model = m2;
+    }
+    for i in 2..files.len() {
+        if files[i] != files[1] {
+            return Err((
+                "written file is not a fixpoint over repeated file cycles".to_string(),
+                format!(
+                    "file of cycle {} has {} bytes, file of cycle 2 has {} bytes; first difference at {}",
+                    i + 1,
+                    files[i].len(),
+                    files[1].len(),
+                    first_diff_line(&String::from_utf8_lossy(&files[1]), &String::from_utf8_lossy(&files[i]))
+                ),
+            ));
+        }
+    }
+    // the first file may only differ from the second in white space
+    let strip = |b: &[u8]| -> Vec<u8> { b.iter().copied().filter(|c| !c.is_ascii_whitespace()).collect() };
+    if files.len() >= 2 && strip(&files[0]) != strip(&files[1]) {
+        return Err((
+            "written file changes (other than in white space) in the second file cycle".to_string(),
+            format!("first difference at {}", first_diff_line(&String::from_utf8_lossy(&files[0]), &String::from_utf8_lossy(&files[1]))),
+        ));
+    }
+    Ok(())
+}
+
 /// lines of `text` around the line number named in a parser error message (":<line>:")
 fn near_error_line(text: &str, msg: &str) -> String {
     let line = msg
@@ -369,6 +429,14 @@ pub fn run(args: &Args, rec: &mut Recorder) {
         rec.bump("accepted");
         if let Err((sig, detail)) = cycle_check(&m1, k, &r.text) {
             rec.violation(&sig, &detail, witness_text(&format!("G-doc/{entry}"), &r.text, ""));
+        }
+        // ---- the same through files: A2lFile::write(path, banner) / load(path)
+        if case % 8 == 3 {
+            let banner = if rng.chance(2, 3) { Some("written by the C01 monitor") } else { None };
+            rec.bump(if banner.is_some() { "file_cycles.with_banner" } else { "file_cycles.without_banner" });
+            if let Err((sig, detail)) = file_cycle_check(&m1, k.max(3), banner, &scratch) {
+                rec.violation(&sig, &detail, witness_text(&format!("G-doc/{entry} + file cycles"), &r.text, &format!("banner: {banner:?}")));
+            }
         }
         // ---- edited model: a few public-API edits, then the same cycle check
         if case % 4 == 0 {
